@@ -559,6 +559,9 @@ def _import_family(role, sym, roles):
     parts = set(role.split("+"))
     if "R-dst" in parts and sym == "missing":
         return "rename-destination-lost"
+    if "R-dst" in parts and any("R-src" in v and v & {"M", "R-dst"} for v in roles.values()):
+        # the destination of a rename whose source path (or another one of the commit) is taken again: a chain or swap of renames
+        return "rename-source-path-reused-in-same-commit:%s" % sym
     if "R-src" in parts and parts & {"M", "R-dst"}:
         return "rename-source-path-reused-in-same-commit:%s" % sym
     if any(x.startswith("under-R-") for x in parts):
